@@ -6,6 +6,7 @@ package main
 
 import (
 	"fmt"
+	"os"
 	"math"
 	"strconv"
 
@@ -101,6 +102,10 @@ func init() {
 		}
 		return a[1]
 	})
+	regBoth("vdebugStr", func(e *Engine, f *frame, a []Value) Value {
+		fmt.Fprintf(os.Stderr, "VDEBUG %s: %s\n", e.concStr(a[0].(*StrV)), e.concStr(a[1].(*StrV)))
+		return nil
+	})
 	regBoth("vsymbolic", func(e *Engine, f *frame, a []Value) Value { return e.b.tt })
 
 	intrinsics["fmt.Sprintf"] = func(e *Engine, f *frame, a []Value) Value {
@@ -169,6 +174,7 @@ func init() {
 		bits := int(e.term(a[3]).ConstS())
 		return e.strConst(strconv.FormatFloat(math.Float64frombits(v.ConstU()), fmtc, prec, bits))
 	}
+	intrinsics["math.Round"] = func(e *Engine, f *frame, a []Value) Value { return e.b.FpRound(e.term(a[0])) }
 	nop := func(e *Engine, f *frame, a []Value) Value { return nil }
 	intrinsics["(*sync.Mutex).Lock"] = nop
 	intrinsics["(*sync.Mutex).Unlock"] = nop
@@ -366,10 +372,12 @@ func (e *Engine) sprintf(format *StrV, args []Value) *StrV {
 		if i >= len(fs) {
 			break
 		}
+		specStart := i
 		for i < len(fs) && strings.ContainsRune("+-# 0123456789.", rune(fs[i])) {
 			i++
 		}
 		verb := fs[i]
+		spec := "%" + fs[specStart:i+1]
 		if verb == '%' {
 			out = append(out, e.b.BVu('%', 8))
 			continue
@@ -380,6 +388,13 @@ func (e *Engine) sprintf(format *StrV, args []Value) *StrV {
 		}
 		arg := args[ai]
 		ai++
+		// concrete floats are formatted by the real fmt (same Go release as the code under test)
+		if ifc, ok := arg.(*Iface); ok && ifc.t != nil && isFloat(ifc.t) {
+			if t, ok := ifc.v.(*Term); ok && t.IsConst() && strings.ContainsRune("feEgGv", rune(verb)) {
+				out = append(out, e.strConst(fmt.Sprintf(spec, fpVal(t.u, t.sort.W))).b...)
+				continue
+			}
+		}
 		out = append(out, e.fmtArg(verb, arg)...)
 	}
 	return &StrV{b: out}
@@ -465,9 +480,20 @@ func (e *Engine) newBig(t *Term) Value {
 // returns that bit-vector sign/zero-extended to 64 bits, so that small big.Int values stay in bit-vector arithmetic
 // (mixing Int and BV makes the solver slow or undecided).
 func (e *Engine) asSignedBV(x *Term) (*Term, bool) {
+	t, _, ok := e.asSignedBVw(x)
+	return t, ok
+}
+
+// asSignedBVw additionally reports how many low bits can be non-sign bits (the magnitude fits in that many bits).
+func (e *Engine) asSignedBVw(x *Term) (*Term, int, bool) {
 	if x.op == OBv2Nat && x.args[0].sort.W < 64 {
-		return e.b.ZExt(x.args[0], 64), true
+		return e.b.ZExt(x.args[0], 64), x.args[0].sort.W, true
 	}
+	t, ok := e.asSignedBV0(x)
+	return t, 64, ok
+}
+
+func (e *Engine) asSignedBV0(x *Term) (*Term, bool) {
 	if x.op == OIte && x.args[2].op == OBv2Nat && x.args[1].op == OIntSub && x.args[1].args[0] == x.args[2] && x.args[1].args[1].IsConst() {
 		t := x.args[2].args[0]
 		w := t.sort.W
@@ -544,7 +570,16 @@ func initBig() {
 		return e.setBig(a[0], e.b.IntBin(OIntSub, e.bigOf(a[1]), e.bigOf(a[2])))
 	})
 	reg("Mul", func(e *Engine, f *frame, a []Value) Value {
-		return e.setBig(a[0], e.b.IntBin(OIntMul, e.bigOf(a[1]), e.bigOf(a[2])))
+		x, y := e.bigOf(a[1]), e.bigOf(a[2])
+		// a small bit-vector-backed value times a small non-negative constant stays in bit-vector arithmetic
+		for k := 0; k < 2; k++ {
+			if xb, w, ok := e.asSignedBVw(x); ok && w < 64 && y.IsConst() && y.bigv.Sign() >= 0 && w+y.bigv.BitLen() <= 62 {
+				prod := e.b.Bin(OBvMul, xb, e.b.BVu(y.bigv.Uint64(), 64))
+				return e.setBig(a[0], e.b.Bv2Nat(e.b.Extract(prod, 62, 0)))
+			}
+			x, y = y, x
+		}
+		return e.setBig(a[0], e.b.IntBin(OIntMul, x, y))
 	})
 	reg("SetInt64", func(e *Engine, f *frame, a []Value) Value { return e.setBig(a[0], e.b.Bv2IntS(e.term(a[1]))) })
 	reg("SetUint64", func(e *Engine, f *frame, a []Value) Value { return e.setBig(a[0], e.b.Bv2Nat(e.term(a[1]))) })
@@ -645,6 +680,14 @@ func initBig() {
 	reg("SetBytes", func(e *Engine, f *frame, a []Value) Value {
 		e.used("math/big.Int as SMT Int")
 		bs := e.sliceBytes(a[1].(*SliceV))
+		if len(bs) > 0 && len(bs) <= 7 {
+			// up to 56 bits: keep the value as a bit-vector (no Int/BV mixing for small magnitudes)
+			v := bs[0]
+			for _, c := range bs[1:] {
+				v = e.b.Concat(v, c)
+			}
+			return e.setBig(a[0], e.b.Bv2Nat(v))
+		}
 		r := e.b.IntI(0)
 		for i, c := range bs {
 			t := e.b.Bv2Nat(c)
